@@ -33,10 +33,29 @@ pub fn show_word(w: &[X]) -> String {
     format!("[{}]", v.join(","))
 }
 pub fn json_word(w: &[X]) -> Value {
-    Value::Array(w.iter().map(|x| match x { None => Value::Null, Some(v) => json!(v) }).collect())
+    // JSON has no infinities: they are written as the strings "inf" / "-inf"
+    Value::Array(
+        w.iter()
+            .map(|x| match x {
+                None => Value::Null,
+                Some(v) if v.is_infinite() => json!(if *v > 0.0 { "inf" } else { "-inf" }),
+                Some(v) => json!(v),
+            })
+            .collect(),
+    )
 }
 pub fn word_from_json(v: &Value) -> Vec<X> {
-    v.as_array().map(|a| a.iter().map(|x| x.as_f64()).collect()).unwrap_or_default()
+    v.as_array()
+        .map(|a| {
+            a.iter()
+                .map(|x| match x.as_str() {
+                    Some("inf") => Some(f64::INFINITY),
+                    Some("-inf") => Some(f64::NEG_INFINITY),
+                    _ => x.as_f64(),
+                })
+                .collect()
+        })
+        .unwrap_or_default()
 }
 pub fn syms_from_json(v: &Value) -> Vec<u8> {
     v.as_array().map(|a| a.iter().map(|x| x.as_u64().unwrap_or(0) as u8).collect()).unwrap_or_default()
